@@ -320,7 +320,11 @@ var verPool = []string{"1.0.0", "1.2.3", "1.10.0", "1.9.0", "0.0.0", "0.0.1", "1
 var hugeVerPool = []string{"18446744073709551616.0.0", "1.18446744073709551616.0", "1.0.99999999999999999999"}
 
 var strPool = []string{"", "abc", "ABC", "aBc", "ab", "bc", "b", "a b", " abc", "abc ", "  ", "cde", "Straße", "STRASSE", "strasse", "İ", "i", "ǅ", "ǆ", "K", "k", "ſ", "s", "ς", "σ", "Σ",
-	"héllo", "HÉLLO", "日本語", "x", "X", "zz", "Zz", "1.0.0", "true", "null", "a.b", "[1]", "a,b", "(a)", "Ω", "ω", "Å", "å", "é", "É", "ab\tcd", "line\nbreak", "Ⱥ", "ⱥ", "ẞ", "ß", "line1\r\nline2", "\r\n", "a\rb", "\n", "tab\there ", "Ω", "Å", "\u2028x", "nul\x00byte", "\x7f", "𝒳𝒴", "ＡＢ", "ǰ", "ŉ"}
+	"héllo", "HÉLLO", "日本語", "x", "X", "zz", "Zz", "1.0.0", "true", "null", "a.b", "[1]", "a,b", "(a)", "Ω", "ω", "Å", "å", "é", "É", "ab\tcd", "line\nbreak", "Ⱥ", "ⱥ", "ẞ", "ß", "line1\r\nline2", "\r\n", "a\rb", "\n", "tab\there ", "Ω", "Å", "\u2028x", "nul\x00byte", "\x7f", "𝒳𝒴", "ＡＢ", "ǰ", "ŉ", "<nil>", "<NIL>", "Ⅷ", "ⅷ", "Ⓐ", "ⓐ"}
+
+// bodies with the escape sequences the grammar allows (the engine keeps them verbatim: no unescaping). Used for the
+// elements of string lists only: C04 leaves literals with backslashes outside its claim.
+var escPool = []string{`a\"`, `\"`, `\\`, `x\"y`, `\n`, `\u00e9`, `q\\`, `\"\"`, `\/`, `\"a`, `a\\\"`}
 
 func quote(body string) string { return "\"" + body + "\"" }
 
@@ -373,7 +377,11 @@ func genLit(r *RNG, kind string) Lit {
 		n := 1 + r.Intn(5)
 		l := Lit{Kind: "slist"}
 		for i := 0; i < n; i++ {
-			l.Elems = append(l.Elems, quote(genBody(r)))
+			if r.Chance(1, 8) {
+				l.Elems = append(l.Elems, quote(pick(r, escPool)))
+			} else {
+				l.Elems = append(l.Elems, quote(genBody(r)))
+			}
 		}
 		if r.Chance(2, 10) {
 			l.Elems = append(l.Elems, l.Elems[0])
@@ -529,6 +537,9 @@ func nearValue(r *RNG, leaf *Node, idc *int) *AV {
 		*idc++
 		if r.Chance(1, 12) {
 			return &AV{K: AVStringerPanic, ID: *idc}
+		}
+		if r.Chance(1, 10) {
+			return &AV{K: AVStringer, ID: *idc, S: "<nil>"}
 		}
 		return &AV{K: AVStringer, ID: *idc, S: s}
 	}
